@@ -270,8 +270,9 @@ func verifyPartChecksums(part part.Entity, calculated storage.ChecksumValues) er
 }
 
 func verifyObjectChecksums(object storage.Object, parts []part.Entity, partChecksums []storage.ChecksumValues) error {
-	// If single part, object checksums should match part checksums
-	if len(parts) == 1 {
+	// If single part (and not a one-part multipart upload / appended object, whose
+	// ETag has the "<md5 of part md5s>-1" form), object checksums should match part checksums
+	if len(parts) == 1 && !strings.Contains(object.ETag, "-") {
 		calculated := partChecksums[0]
 
 		if object.ETag != "" && calculated.ETag != nil {
